@@ -157,6 +157,9 @@ def rule_r1(repo):
 class PlumbInterp(Interp):
     LIST_CAP = 100
 
+    def on_while(self, node, frame):
+        return self.unroll_while(node, frame, 200)
+
     def on_call(self, text, callee, args, kwargs, node, frame):
         if text in ('TableA', 'TableB', 'TableC', 'TableR', 'TableD', 'BufrTableGroup'):
             self.event('new', text, list(args))
